@@ -1,6 +1,7 @@
 import Driver.Proto
 import Ezc3dVerif.Model.Read
 import Ezc3dVerif.Model.Write
+import Ezc3dVerif.Model.SaveIO
 /-
   Line-protocol driver: runs the model on an op script and prints the same lines as the C++
   harness (/verif/harness/harness.cpp).
@@ -24,6 +25,21 @@ def fops : FloatOps where
   rateKey b := castI32 (Float32.ofBits b * 10000.0)
   truncNat b := castU64 (Float32.ofBits b)
   ratioNat a b := castU64 (Float32.ofBits a / Float32.ofBits b)
+
+/-- announced size of the data section (frames x floats per frame): beyond 4M floats a load is not
+    replayed in the model (known finding: cost follows the announced counts, not the file size) -/
+def claimedOf (b : Bytes) : Nat :=
+  match Header.read (InStream.open_ b) with
+  | .ok (h, s1) =>
+    match readParameters s1 h with
+    | .ok ((ph, gs), _) =>
+      match updateHeader fops { hdr := h, ph := ph, groups := gs, frames := [] } with
+      | .ok c1 =>
+        if c1.hdr.nbFrames > maxFrames then 0
+        else c1.hdr.nbFrames * (4 * c1.hdr.nbPoints + c1.hdr.nbAnalogByFrame * c1.hdr.nbAnalogs + 1)
+      | _ => 0
+    | _ => 0
+  | _ => 0
 
 structure DState where
   cur : Option C3D := none
@@ -109,6 +125,8 @@ def stepLine (d : DState) (n : Nat) (line : String) : IO (DState × List String)
     match bytes? with
     | none => return ({ d with cur := none }, [hd, "R throw ios_failure"])
     | some b =>
+      let claimed : Nat := claimedOf b.toList
+      if claimed > 4000000 then return ({ d with cur := none }, [hd, s!"R claimed {claimed}"]) else
       match C3D.load fops b.toList with
       | .ok s => return ({ d with cur := some s }, hd :: "R ok" :: dumpLines d.mode s)
       | .throw e => return ({ d with cur := none }, [hd, s!"R throw {e}"])
@@ -121,6 +139,7 @@ def stepLine (d : DState) (n : Nat) (line : String) : IO (DState × List String)
       match Spec.decode b.toList (opts.contains "float") with
       | none => return (d, [hd, "R undecodable"])
       | some c => return (d, hd :: "R ok" :: specLines c (d.mode == .full))
+  | "savex" :: _ => return (d, [hd, "R skipped"])
   | ["mkframe", v, pts, subs] =>
     let f : Frame := { pts := (parsePts pts).getD [], subs := (parseSubs subs).getD [] }
     return (d.setVar v f, [hd])
@@ -177,6 +196,13 @@ def stepLine (d : DState) (n : Nat) (line : String) : IO (DState × List String)
         IO.FS.writeBinFile (path ++ ".model") (ByteArray.mk b.toArray)
         return (d, hd :: "R ok" :: dumpLines d.mode s)
       | .throw e => return (d, hd :: s!"R throw {e}" :: dumpLines d.mode s)
+      | .ub k => return (d, [hd, s!"R ub {k.toString}"])
+    | ["savefault", _path, k] =>
+      match s.saveTo (.accepts (parseNat! k)) with
+      | .ok _ =>
+        let n := match s.write with | .ok b => writeCallBytes s b | _ => 0
+        return (d, [hd, "R ok", s!"W {n} no-fault"])
+      | .throw e => return (d, [hd, s!"R throw {e}", "W fault"])
       | .ub k => return (d, [hd, s!"R ub {k.toString}"])
     | ["print"] => return (d, [hd, "R ok"])
     | ["dump"] => return (d, hd :: dumpLines d.mode s)
